@@ -43,6 +43,8 @@ Definition reviewed_sites : list (string * string * string * string) :=
     ("padding.py", "_pad_face_connections._max_boundary_width", "max", "max(all_widths)");
     ("transform.py", "_interp_1d_conservative", "max", "max(theta_min, theta_hat_1[j])");
     ("transform.py", "_interp_1d_conservative", "min", "min(theta_max, theta_hat_2[j])");
+    (* the one-letter kind of a NumPy dtype (integer / unsigned / boolean), not a user name *)
+    ("padding.py", "_pad_basic", "substring-test", "da_padded.dtype.kind in 'iub'");
     (* temporary dimension names, made different from every dimension present *)
     ("padding.py", "_maybe_swap_dimension_names", "concat", "'_' + temp_name");
     ("padding.py", "_maybe_swap_dimension_names", "concat", "to_name + 'dummy'");
